@@ -9,3 +9,4 @@ import OsyrisProofs.C17
 #print axioms Osyris.C17.C17_iop_frame
 #print axioms Osyris.C17.C17_copy_independent
 #print axioms Osyris.C17.C17_view_sees_write
+#print axioms Osyris.C17.alloc_viewOK
